@@ -40,15 +40,46 @@ type obs struct {
 
 func run(c memCase, mem uint64) obs {
 	var o obs
-	var ms0, ms1 runtime.MemStats
+	// heap growth caused by the call: peak of HeapAlloc sampled while it runs,
+	// above the level before the call (not the cumulative TotalAlloc: a program
+	// may legitimately churn memory within its limit)
+	runtime.GC()
+	var ms0 runtime.MemStats
 	runtime.ReadMemStats(&ms0)
+	var peak uint64
+	stop := make(chan struct{})
+	sampled := make(chan struct{})
+	if c.Kind == "amplify" {
+		go func() {
+			defer close(sampled)
+			var ms runtime.MemStats
+			tick := time.NewTicker(2 * time.Millisecond)
+			defer tick.Stop()
+			for {
+				select {
+				case <-stop:
+					return
+				case <-tick.C:
+					runtime.ReadMemStats(&ms)
+					if ms.HeapAlloc > peak {
+						peak = ms.HeapAlloc
+					}
+				}
+			}
+		}()
+	} else {
+		close(sampled)
+	}
 	o.tr = progcheck.RunGolua(progcheck.Case{Source: c.Source, Args: c.Args}, harness.Opts{Mem: mem, CPU: c.CPU, EventHook: func(r *rt.Runtime, e string) {
 		if u := r.UsedResources().Memory; mem > 0 && u >= mem && o.overrun == "" {
 			o.overrun = fmt.Sprintf("accounted memory %d >= limit %d at event %s", u, mem, e)
 		}
 	}})
-	runtime.ReadMemStats(&ms1)
-	o.allocMiB = float64(ms1.TotalAlloc-ms0.TotalAlloc) / (1 << 20)
+	close(stop)
+	<-sampled
+	if peak > ms0.HeapAlloc {
+		o.allocMiB = float64(peak-ms0.HeapAlloc) / (1 << 20)
+	}
 	return o
 }
 
@@ -143,6 +174,10 @@ var amplify = []struct{ name, src string }{
 	{"table-hash-growth", `local t = {} for i = 1, N do t["k" .. i] = i end return i`},
 	{"vararg-list", `return select("#", table.unpack({}, 1, N))`},
 	{"table-pack", `return table.pack(table.unpack({}, 1, N)).n`},
+	{"vararg-recursion-live", `local function f(n, ...) if n == 0 then return select("#", ...) end return 1 + f(n - 1, n, ...) end return f(N)`},
+	{"vararg-prefix-expansion", `local function g(...) return ... end local function f(n, ...) if n == 0 then return select("#", ...) end return 1 + f(n - 1, n, g(...)) end return f(N)`},
+	{"vararg-return-prefix", `local function f(n, ...) if n == 0 then return ... end return n, f(n - 1, n, ...) end return select("#", f(N))`},
+	{"vararg-table-from-calls", `local function three() return 1, 2, 3 end local t = {} for i = 1, N do t[i] = {i, three()} end return #t`},
 	{"table-concat", `local t = {} for i = 1, 1000 do t[i] = ("x"):rep(100) end local parts = {} for i = 1, N do parts[i] = table.concat(t) end return #parts`},
 	{"string-format", `return #string.format("%" .. math.min(N, 99) .. "s", "x")`},
 	{"closures", `local fs = {} for i = 1, N do fs[i] = function() return i end end return #fs`},
@@ -182,8 +217,8 @@ var pairing = []struct{ name, src string }{
 func TestC06(t *testing.T) {
 	rec := ev.New("C06")
 	defer Finish(t, rec)
-	rec.Rule("(1) rapid-generated programs run unlimited and then under a ladder of memory limits (512 B .. 16 MiB and drawn ones): accounted memory < M at every host event and at the end, killed is monotone in M, the limited trace is a prefix of the unlimited one and identical with the same results when not killed (a kill cannot be intercepted); (2) 23 amplification templates (string building/repetition, table growth, argument lists, loading code, closures, coroutines, dump, pack, gsub expansion, allocation retried under pcall/xpcall) with N in {1e3 .. 2^40} under M in {1e4, 1e5, 1e6}: must come back within a watchdog, accounted memory < M, no Go panic, and the Go heap allocated by the call (runtime.MemStats.TotalAlloc delta) <= 100*M + 64 MiB; (3) 13 pairing templates where memory is required in one context and released in another or on error/kill/close paths: no panic, counter never wraps. Non-trivial: program killed for one tested M and completing for another, or a template with N >= 2^20; distinct by (program/template, M, N).")
-	rec.Assume("TotalAlloc is a whole-process number: the test process runs one case at a time; the bound 100*M + 64 MiB leaves more than a 10x margin over what the pinned tree allocates for a fresh runtime (about 3 MiB) plus M")
+	rec.Rule("(1) rapid-generated programs run unlimited and then under a ladder of memory limits (512 B .. 16 MiB and drawn ones): accounted memory < M at every host event and at the end, killed is monotone in M, the limited trace is a prefix of the unlimited one and identical with the same results when not killed (a kill cannot be intercepted); (2) 27 amplification templates (string building/repetition, table growth, argument lists, loading code, closures, coroutines, dump, pack, gsub expansion, allocation retried under pcall/xpcall) with N in {1e3 .. 2^40} under M in {1e4, 1e5, 1e6}: must come back within a watchdog, accounted memory < M, no Go panic, and the Go heap growth caused by the call (peak of runtime.MemStats.HeapAlloc sampled every 2 ms, above its level before the call) <= 40*M + 48 MiB; (3) 13 pairing templates where memory is required in one context and released in another or on error/kill/close paths: no panic, counter never wraps. Non-trivial: program killed for one tested M and completing for another, or a template with N >= 2^20; distinct by (program/template, M, N).")
+	rec.Assume("HeapAlloc is a whole-process number sampled every 2 ms: the test process runs one case at a time, a breach is re-measured once, and the bound 40*M + 48 MiB leaves more than a 10x margin over a fresh runtime (about 3 MiB) plus M plus uncollected garbage")
 	rec.Assume("a watchdog (2 x 90 s) only detects calls that never return")
 	progcheck.ApplyKnownFindings(rec)
 
@@ -303,12 +338,12 @@ func checkTemplate(c memCase) string {
 		return msg
 	}
 	if c.Kind == "amplify" {
-		bound := 100*float64(c.Mem)/(1<<20) + 64
+		bound := 40*float64(c.Mem)/(1<<20) + 48
 		if o.allocMiB > bound {
 			// re-measure once (another goroutine may have allocated)
 			o2, hung := runWatched(c, c.Mem, 90*time.Second)
 			if !hung && o2.allocMiB > bound {
-				return fmt.Sprintf("the Go heap allocated %.0f MiB while running under a memory limit of %d bytes (bound %.0f MiB): allocation is not charged before it happens", o2.allocMiB, c.Mem, bound)
+				return fmt.Sprintf("the Go heap grew by %.0f MiB while running under a memory limit of %d bytes (bound %.0f MiB): allocation is not charged (before it happens)", o2.allocMiB, c.Mem, bound)
 			}
 		}
 	}
